@@ -408,6 +408,8 @@ static void rand_run(uint64_t idx)
 }
 VF_SUITE(random_text, rand_count, rand_run)
 
+void c19_path_setup();
+void c19_shell_setup();
 extern "C" void vf_setup()
 {
     for (const char *c :
@@ -420,8 +422,6 @@ extern "C" void vf_setup()
           "creader_readline: line and cursor inside [strt, fini]", "creader_readline at the end returns -1",
           "creader_skipws == length of the leading white-space run"})
         vf::require(c);
-    extern void c19_path_setup();
-    extern void c19_shell_setup();
     c19_path_setup();
     c19_shell_setup();
 }
